@@ -3,6 +3,8 @@ package rig
 import (
 	"fmt"
 	"net/netip"
+	"strconv"
+	"strings"
 	"testing/synctest"
 	"time"
 
@@ -15,14 +17,16 @@ import (
 
 // Duo is two real agents on two simulated hosts.
 type Duo struct {
-	C  *core.Ctx
-	W  *simnet.World
-	S  *Stepper
-	Tx *TxNames
-	A  *AgentH
-	B  *AgentH
-	HA *simnet.Host
-	HB *simnet.Host
+	// SignalPrioOffset is added to the priority of every candidate handed over by Signal (0 = as gathered).
+	SignalPrioOffset uint32
+	C                *core.Ctx
+	W                *simnet.World
+	S                *Stepper
+	Tx               *TxNames
+	A                *AgentH
+	B                *AgentH
+	HA               *simnet.Host
+	HB               *simnet.Host
 	// Blocked holds directed (srcIP,dstIP) pairs that cannot communicate.
 	Blocked map[[2]netip.Addr]bool
 	Start   time.Time
@@ -178,7 +182,17 @@ func (d *Duo) Gather(a *AgentH) error {
 
 // Signal hands one local candidate of `from` to `to` (through its textual form).
 func (d *Duo) Signal(from, to *AgentH, c ice.Candidate) error {
-	rc, err := ice.UnmarshalCandidate(c.Marshal())
+	line := c.Marshal()
+	if d.SignalPrioOffset != 0 {
+		// the peer's signalling states priorities in the upper half of the 32-bit field (same order, same gaps)
+		if f := strings.Fields(line); len(f) > 3 {
+			if p, perr := strconv.ParseUint(f[3], 10, 32); perr == nil && p+uint64(d.SignalPrioOffset) <= 0xffffffff {
+				f[3] = strconv.FormatUint(p+uint64(d.SignalPrioOffset), 10)
+				line = strings.Join(f, " ")
+			}
+		}
+	}
+	rc, err := ice.UnmarshalCandidate(line)
 	if err != nil {
 		return err
 	}
